@@ -16,6 +16,7 @@ import (
 	"fmt"
 	"os"
 	"path/filepath"
+	"runtime"
 	"sort"
 	"strings"
 	"testing/synctest"
@@ -232,7 +233,11 @@ type incarnation struct {
 	ctx    context.Context
 	cancel context.CancelFunc
 	dead   bool
-	done   chan struct{} // closed when driver.Sync returned
+	// graceful: the node was stopped by cancelling its context (a shutdown), not killed: its store refuses every call with
+	// context.Canceled, but what its goroutines still do until they exit DOES happen — in particular an acknowledgement the
+	// driver sends reaches the detector, which then forgets the tracked range
+	graceful bool
+	done     chan struct{} // closed when driver.Sync returned
 }
 
 var errStopped = errors.New("verif: node stopped")
@@ -263,7 +268,9 @@ func (s *storeWrap) ProcessBlock(ctx context.Context, b aggsync.Block) error {
 
 func (s *storeWrap) Reorg(ctx context.Context, first uint64) error {
 	if d := s.w.sched.EnterCtx(ctx, "2drv", "Reorg", fmt.Sprint(first), first); d.Err != nil || s.inc.dead {
-		return nil // stopped node: handleReorg retries for ever without a context check; no effect, let it finish
+		// stopped node: its store cannot begin a transaction on a cancelled context. handleReorg retries without a context
+		// check until the retry handler gives up (process exit = end of the goroutine, see LogFatalf in start)
+		return context.Canceled
 	}
 	s.w.onReorg(first)
 	return s.inc.store.W.Reorg(ctx, first)
@@ -309,9 +316,22 @@ func (r *rdWrap) Subscribe(id string) (*reorgdetector.Subscription, error) {
 					real.ReorgProcessed <- true
 					return
 				}
-				<-mine.ReorgProcessed // the driver always acknowledges a notification it has received
+				select {
+				case <-mine.ReorgProcessed:
+				case <-inc.done:
+					// the driver is gone without acknowledging (it was stopped while handling the reorg)
+					<-w.endAll
+					real.ReorgProcessed <- true
+					return
+				}
+				if inc.dead && inc.graceful {
+					// a shutdown, not a kill: the acknowledgement the driver sent does reach the detector
+					w.c.Witness("acknowledgements_sent_during_a_shutdown")
+					real.ReorgProcessed <- true
+					continue
+				}
 				if inc.dead {
-					// the node was stopped before it had handled the reorg: this acknowledgement never happened
+					// the node was KILLED before it had handled the reorg: this acknowledgement never happened
 					<-w.endAll
 					real.ReorgProcessed <- true
 					return
@@ -531,6 +551,9 @@ func run(c *mc.Ctx, u mc.Unit) {
 			inc.rd.VerifDB().Close()
 		}
 	}()
+	savedFatal := aggsync.LogFatalf
+	aggsync.LogFatalf = func(string, ...any) { runtime.Goexit() } // the process would exit here
+	defer func() { aggsync.LogFatalf = savedFatal }()
 	synctest.Run(func() { w.explore(incs) })
 }
 
@@ -569,7 +592,10 @@ func (w *world) start(inc *incarnation) bool {
 		w.c.Failf("harness/appender", "%v", err)
 		return false
 	}
-	rh := &aggsync.RetryHandler{RetryAfterErrorPeriod: time.Millisecond, MaxRetryAttemptsAfterError: -1}
+	// the retry handler gives up after 5 consecutive failures of one call (only a stopped node's store fails that often:
+	// at most one transient RPC failure is injected per execution); giving up is a process exit in aggkit (sync.LogFatalf),
+	// here the end of the goroutine
+	rh := &aggsync.RetryHandler{RetryAfterErrorPeriod: time.Millisecond, MaxRetryAttemptsAfterError: 5}
 	dl, err := aggsync.NewEVMDownloader("c06", simchain.NewClient(w.chain, w.sched, "1dl"), w.p.Chunk, aggkittypes.LatestBlock,
 		time.Millisecond, appender, []common.Address{gerAddr, rmAddr}, rh, aggkittypes.FinalizedBlock)
 	if err != nil {
@@ -583,7 +609,7 @@ func (w *world) start(inc *incarnation) bool {
 		w.c.Failf("harness/driver", "%v", err)
 		return false
 	}
-	go func() { drv.Sync(inc.ctx); close(inc.done) }()
+	go func() { defer close(inc.done); drv.Sync(inc.ctx) }()
 	return true
 }
 
@@ -733,7 +759,7 @@ func (w *world) explore(incs []*incarnation) {
 			alts = append(alts, alt{kind: "detect-while-subscriber-stalled"})
 		}
 		if next < len(incs) {
-			alts = append(alts, alt{kind: "restart"})
+			alts = append(alts, alt{kind: "restart"}, alt{kind: "restart-after-shutdown"})
 		}
 		if len(en) == 0 && len(script) == 0 && !w.detectBusy && w.lastDetect == w.activity {
 			// quiescent, script exhausted, detector silent: END is the default
@@ -746,7 +772,11 @@ func (w *world) explore(incs []*incarnation) {
 		switch a.kind {
 		case "end":
 			goto end
-		case "restart":
+		case "restart", "restart-after-shutdown":
+			if a.kind == "restart-after-shutdown" {
+				w.inc.graceful = true
+				c.Witness("restarts_after_a_shutdown")
+			}
 			w.stop(w.inc)
 			c.Witness("restarts")
 			w.detectBusy = false // a check in flight died with the process (its goroutine stays parked until the end)
